@@ -399,7 +399,7 @@ def _send_primitive(ctx, R, roles, T):
     if hdr is None or pay is None:
         return
     hn, pn = hdr[0], pay[0]
-    R.check(not hn.loops and not pn.loops, "SEND-shape", sp.qualname + "|once", "header and payload are written once (not in a loop)", None, loc)
+    R.check(not g.in_cycle(hn) and not g.in_cycle(pn), "SEND-shape", sp.qualname + "|once", "header and payload are written once (not in a loop)", None, loc)
     R.check(g.dominates([hn], g.exit, exc=False) and g.dominates([hn], pn), "SEND-shape", sp.qualname + "|order",
             "the header write precedes the payload write and happens on every path",
             "the header is not written first on every path", sp.loc(hn.ast))
